@@ -195,6 +195,9 @@ type yaoOpts struct {
 	// randFailAfter > 0: that source fails after so many bytes.
 	randSeed      uint64
 	randFailAfter int
+	// cc: the garbler's Compiler instance (nil = a fresh one); it must have
+	// been created with the params handed to runStream
+	cc *compiler.Compiler
 	// srcName: the source name handed to Compiler.Stream (a path makes
 	// native("x.circ") resolve next to it); "" = "{data}"
 	srcName string
@@ -312,7 +315,11 @@ func runStream(r *vrt.Rng, src string, params *utils.Params, gIn, eIn []string, 
 		if name == "" {
 			name = "{data}"
 		}
-		out.gIO, out.gRes, err = compiler.New(params).Stream(d.connA, out.rec, name, strings.NewReader(src), gIn, [][]int{sizes, peer})
+		cc := o.cc
+		if cc == nil {
+			cc = compiler.New(params)
+		}
+		out.gIO, out.gRes, err = cc.Stream(d.connA, out.rec, name, strings.NewReader(src), gIn, [][]int{sizes, peer})
 		return err
 	}, func() (err error) {
 		sizes, err := circuit.InputSizes(eIn)
